@@ -1,6 +1,6 @@
 """C08 -- distance is reflexive, symmetric and bounded by max_distance."""
 from .. import sym, tables
-from ..norm import n, P, C, V, match
+from ..norm import n, P, C, V, match, find_all
 from . import cmpmodel, common, simd
 
 ID = "C08"
@@ -88,10 +88,38 @@ def clear_checksum(ctx, r, F):
         desc = "%s(%s)" % (path, ", ".join(sym.fmt(x) for x in args))
         # fill(&mut self.data[..] as whole array unsized, 0)
         ok = path == "core::slice::<impl [T]>::fill" and a0 == ("ref", ("field", ("deref", P(1)), 0)) and n(args[1]) == C(0)
-    elif len(ps) == 1 and len(ps[0].stores) == 1 and not ps[0].calls:
+    elif len(ps) == 1 and len(ps[0].stores) == 1 and not any(find_all(n(a_), lambda y: y == P(1)) for x_ in ps[0].calls for a_ in x_[2]):
         (_, pl, v) = ps[0].stores[0]
         desc = "%s <- %s" % (sym.fmt(pl), sym.fmt(v))
         ok = n(pl) == ("field", ("deref", P(1)), 0) and n(v)[0] == "repeat" and n(v)[1] == C(0)
+        if not ok and n(pl) == ("deref", P(1)):
+            # `*self = Self::new()` (or a struct literal): the stored value evaluated: its data must be an all-zero array
+            from .. import evalx
+            evalx.set_target(F)
+            try:
+                val = evalx.ev(sym.Sym(c), F, v, {"symbolic": True, "params": {1: ("obj", "self")}, "cparams": {"SIZE_CKSUM": 3, "SIZE_BUCKETS": 128}})
+            except (evalx.Unknown, evalx.Panics):
+                val = None
+            ok = isinstance(val, tuple) and val[:1] == ("adt",) and len(val) == 3 and isinstance(val[2], tuple) and \
+                ((val[2][:1] == ("repeat",) and val[2][1] == 0) or (val[2][:1] == ("array",) and all(x == 0 for x in val[2][1:])))
+    elif len(ps) == 1 and any(p_.end == "loop" for p_ in sym.Sym(c).paths()):
+        # `for b in self.data.iter_mut() { *b = 0 }`: the loop visits the whole array and every cycle stores 0 through the item
+        S_ = sym.Sym(c)
+        allp = S_.paths()
+        loops = [p_ for p_ in allp if p_.end == "loop"]
+        hdr = loops[0].blocks[-1]
+        pre = [p_ for p_ in S_.paths(stop_at={hdr}) if p_.end == "stop"]
+        step = S_.paths(entry=hdr)
+        cyc = [p_ for p_ in step if p_.end == "loop"]
+        desc = "loop"
+        if len(pre) == 1 and len(cyc) == 1 and all(p_.end in ("loop", "return", "unreachable") for p_ in step):
+            names = [x[1].rsplit("::", 1)[-1] for x in pre[0].calls]
+            src_ok = names in (["iter_mut", "into_iter"], ["iter_mut"]) and n(pre[0].calls[0][2][0]) in (("ref", ("field", ("deref", P(1)), 0)), ("field", ("deref", P(1)), 0))
+            nxt = [x for x in cyc[0].calls if x[1].endswith("::next")]
+            st = [(n(pl_), n(v_)) for _, pl_, v_ in cyc[0].stores]
+            item = ("field", ("variant", n(("call", nxt[0][0], nxt[0][1], nxt[0][2])), "Some"), 0) if len(nxt) == 1 else None
+            ok = src_ok and item is not None and st == [(("deref", item), C(0))] and len(cyc[0].calls) == 1
+            desc = "loop over %s storing %s" % (names, [(sym.fmt(a_), sym.fmt(b_)) for a_, b_ in st])
     ctx.ob(r, ("FuzzyHashChecksumData::clear", "whole-array-zero"), ok,
            "clear() is %s; reference: zero-fill of the whole data array" % desc, cfg=F.key, where=c.where())
     for ob in F.method("clear_checksum", "hash::FuzzyHash<"):
